@@ -98,8 +98,10 @@ class DFr(Fr):
         return s
 
 
-def _bpm(rng, exact, first):
+def _bpm(rng, exact, first, long_ok):
     r = rng.random()
+    if not long_ok:
+        r *= 0.88
     if r < 0.45:
         return Fr(rng.choice([60, 90, 100, 120, 125, 128, 150, 160, 175, 180, 200, 240, 300, 999]))
     if r < 0.7:
@@ -117,10 +119,11 @@ def gen_chart(rng, lname, exact):
     conv = (lambda x: Fr(x)) if exact else (lambda x: Fr(float(x)))
     # ---- tempo points on measure lines
     nb = rng.choice([1, 1, 1, 2, 2, 3, 4, 5])
+    long_ok = rng.random() < 0.1                     # tempos that ':.3f' cannot hold (known finding) in ~10% of the charts
     bpms = []
     off = Fr(0)
     for i in range(nb):
-        b = conv(_bpm(rng, exact, i == 0))
+        b = conv(_bpm(rng, exact, i == 0, long_ok))
         bpms.append([conv(off), b, 4])
         off = bpms[-1][0] + rng.choice([1, 1, 2, 3, 4, 8, 30]) * 4 * Fr(60000) / b
     r = rng.random()
@@ -132,7 +135,7 @@ def gen_chart(rng, lname, exact):
             seg_len.append((bpms[i + 1][0] - bpms[i][0]) / (Fr(60000) / bpms[i][1]))
         else:
             seg_len.append(Fr(rng.choice([4, 8, 16, 40]) if not far else 4400))
-    use = rng.sample(cols, rng.randint(1, len(cols)))[:rng.choice([1, 2, 3, 4, 18])]
+    use = rng.sample(cols, rng.randint(1, len(cols)))[:rng.choice([1, 2, 2, 3, 4, 6])]
     names = [f"s{j}.wav" for j in range(rng.choice([0, 1, 2, 4]))]
     ids = rng.sample(range(1, 1296), len(names) + 2)
     lnobj = rng.choice(["ZZ", "ZZ", "ZZ", R.b36(ids[-1])])
@@ -142,7 +145,7 @@ def gen_chart(rng, lname, exact):
         samples.append(["01", "kick.wav"])           # the default id names a real sample
     hits, holds = [], []
     for col in use:
-        n = rng.choice([0, 1, 1, 2, 3, 4, 6])
+        n = rng.choice([0, 1, 1, 2, 2, 3, 4, 6])
         pts = {}
         for _ in range(n):
             i = rng.randrange(nb)
@@ -211,7 +214,7 @@ def gen_chart(rng, lname, exact):
 
 
 def generate(rng, tier):
-    n = 300 if tier == "quick" else 7000
+    n = 280 if tier == "quick" else 7000
     cases = []
     for i in range(n):
         lname = LAYOUTS[i % 5] if i < 50 else rng.choice(LAYOUTS)
